@@ -194,7 +194,22 @@ func (s *Server) Run(addr string, opt ...Option) error {
 			return fmt.Errorf("%s: unable to create in-memory conn: %w", op, err)
 		}
 		localConnID := connID
+		// Stop holds the read lock from before it cancels the context until
+		// its connWg.Wait() has returned, so under the write lock this
+		// connection is either registered before Stop starts waiting or seen
+		// to be too late.
+		s.mu.Lock()
+		if s.shutdownCtx.Err() != nil {
+			s.mu.Unlock()
+			_ = c.Close()
+			if s.onCloseHandler != nil {
+				s.onCloseHandler(localConnID)
+			}
+			_ = s.listener.Close()
+			return nil
+		}
 		s.connWg.Add(1)
+		s.mu.Unlock()
 		go func() {
 			defer func() {
 				// Stop waits on connWg: only signal it once the connection
